@@ -320,4 +320,95 @@ Section Main.
         - destruct (OTH i y NE Fy) as [(y' & R1 & R2 & _)|(R1 & _)]; [|congruence]. rewrite Fx in R1. injection R1 as <-. destruct R2 as (R2 & _). congruence. }
       pose proof (find_addr_of_info c tried_bucket bucket_pos routable s i y HA Fy) as Q. rewrite H in Q. congruence.
   Qed.
+
+  (* ---------- Select_: the counts it consults before its random search are sound ---------- *)
+  (* The search loop of Select_ draws buckets until it meets an entry of a requested network in the table it decided to search; it
+     can only end if such an entry exists.  Under the invariant it does: whenever the early exits are not taken, the table that will
+     be searched holds an eligible entry. *)
+  Lemma select_counts_sum s nets : nets <> [] ->
+    select_counts s nets = (fold_left (fun acc net => acc + fst (nc_get (s_netcnt s) net)) nets 0,
+                            fold_left (fun acc net => acc + snd (nc_get (s_netcnt s) net)) nets 0).
+  Proof.
+    intros NE. unfold select_counts. destruct nets as [|n0 r]; [congruence|]. generalize (n0 :: r) as l. clear.
+    assert (G : forall l a b, fold_left (fun acc net => match zfind net (s_netcnt s) with Some (n, t) => (fst acc + n, snd acc + t) | None => acc end) l (a, b) =
+                (fold_left (fun acc net => acc + fst (nc_get (s_netcnt s) net)) l a, fold_left (fun acc net => acc + snd (nc_get (s_netcnt s) net)) l b)).
+    { induction l as [|x r IH]; intros a b; simpl; auto.
+      assert (ST : match zfind x (s_netcnt s) with Some (n, t) => (a + n, b + t) | None => (a, b) end =
+                   (a + fst (nc_get (s_netcnt s) x), b + snd (nc_get (s_netcnt s) x))).
+      { unfold nc_get. destruct (zfind x (s_netcnt s)) as [[n t]|]; simpl; f_equal; lia. }
+      rewrite ST. apply IH. }
+    intros l. apply G.
+  Qed.
+  Lemma fold_sum_pos (f : Z -> Z) l : (forall x, 0 <= f x) -> forall a, 0 <= a -> a < fold_left (fun acc x => acc + f x) l a -> exists x, In x l /\ 0 < f x.
+  Proof.
+    intros NN. induction l as [|x r IH]; intros a A H; simpl in H; [lia|]. destruct (Z_lt_le_dec 0 (f x)) as [P|P]; [exists x; simpl; auto|].
+    pose proof (NN x). assert (f x = 0) by lia. rewrite H1, Z.add_0_r in H. destruct (IH a A H) as (y & I & Q). exists y. simpl. auto.
+  Qed.
+
+  Theorem select_plan_sound s new_only nets side : Inv s -> select_plan s new_only nets = Some side ->
+    exists id a, zfind id (s_info s) = Some a /\
+      (nets = [] \/ In (network (a_key a)) nets) /\
+      (new_only = true -> a_tried a = false) /\
+      match side with Some true => a_tried a = true | Some false => a_tried a = false | None => True end /\
+      (if a_tried a then sfind (tslot (a_key a)) (s_tried s) = Some id else exists sl, sfind sl (s_new s) = Some id).
+  Proof.
+    intros (HA & HR & HC & HX) SP.
+    (* an entry of the wanted kind (tried or new) in the wanted networks exists as soon as its count is positive *)
+    assert (NEWX : forall net, 0 < fst (nc_get (s_netcnt s) net) -> exists id a, zfind id (s_info s) = Some a /\ a_tried a = false /\ network (a_key a) = net).
+    { intros net P. rewrite (C_net _ _ _ HC) in P. simpl in P. apply (mcount_pos_ex Z.eqb zeqb_spec) in P. destruct P as (id & a & I & Q).
+      apply andb_true_iff in Q. destruct Q as [Q1 Q2]. unfold is_new in Q1. simpl in Q1. rewrite andb_true_r in Q1. apply negb_true_iff in Q1.
+      unfold on_net in Q2. simpl in Q2. apply Z.eqb_eq in Q2. exists id, a. split; [apply z_In_find; auto; apply (S_nd_info _ _ _ _ _ HA) | auto]. }
+    assert (TRIEDX : forall net, 0 < snd (nc_get (s_netcnt s) net) -> exists id a, zfind id (s_info s) = Some a /\ a_tried a = true /\ network (a_key a) = net).
+    { intros net P. rewrite (C_net _ _ _ HC) in P. simpl in P. apply (mcount_pos_ex Z.eqb zeqb_spec) in P. destruct P as (id & a & I & Q).
+      apply andb_true_iff in Q. destruct Q as [Q1 Q2]. unfold is_tried in Q1. simpl in Q1.
+      unfold on_net in Q2. simpl in Q2. apply Z.eqb_eq in Q2. exists id, a. split; [apply z_In_find; auto; apply (S_nd_info _ _ _ _ _ HA) | auto]. }
+    assert (NEWALL : 0 < s_nnew s -> exists id a, zfind id (s_info s) = Some a /\ a_tried a = false).
+    { intros P. rewrite (C_new _ _ _ HC) in P. apply (mcount_pos_ex Z.eqb zeqb_spec) in P. destruct P as (id & a & I & Q).
+      unfold is_new in Q. simpl in Q. rewrite andb_true_r in Q. apply negb_true_iff in Q. exists id, a. split; [apply z_In_find; auto; apply (S_nd_info _ _ _ _ _ HA) | auto]. }
+    assert (TRIEDALL : 0 < s_ntried s -> exists id a, zfind id (s_info s) = Some a /\ a_tried a = true).
+    { intros P. rewrite (C_tried _ _ _ HC) in P. apply (mcount_pos_ex Z.eqb zeqb_spec) in P. destruct P as (id & a & I & Q).
+      unfold is_tried in Q. simpl in Q. exists id, a. split; [apply z_In_find; auto; apply (S_nd_info _ _ _ _ _ HA) | auto]. }
+    assert (NN1 : forall net, 0 <= fst (nc_get (s_netcnt s) net)) by (intros net; rewrite (C_net _ _ _ HC); simpl; apply mcount_nonneg).
+    assert (NN2 : forall net, 0 <= snd (nc_get (s_netcnt s) net)) by (intros net; rewrite (C_net _ _ _ HC); simpl; apply mcount_nonneg).
+    (* which table has an eligible entry *)
+    assert (PICKN : forall nc tc, select_counts s nets = (nc, tc) -> 0 < nc -> exists id a, zfind id (s_info s) = Some a /\ a_tried a = false /\ (nets = [] \/ In (network (a_key a)) nets)).
+    { intros nc tc SC P. destruct nets as [|n0 r].
+      - simpl in SC. injection SC as <- <-. destruct (NEWALL P) as (id & a & F & T). exists id, a. split; [auto|]. split; [auto|]. left. reflexivity.
+      - rewrite select_counts_sum in SC by discriminate. injection SC as <- <-.
+        assert (P' : 0 < fold_left (fun acc x => acc + fst (nc_get (s_netcnt s) x)) (n0 :: r) 0) by exact P.
+        destruct (fold_sum_pos _ _ NN1 0 ltac:(lia) P') as (x & I & Q).
+        destruct (NEWX x Q) as (id & a & F & T & E). exists id, a. rewrite E. auto. }
+    assert (PICKT : forall nc tc, select_counts s nets = (nc, tc) -> 0 < tc -> exists id a, zfind id (s_info s) = Some a /\ a_tried a = true /\ (nets = [] \/ In (network (a_key a)) nets)).
+    { intros nc tc SC P. destruct nets as [|n0 r].
+      - simpl in SC. injection SC as <- <-. destruct (TRIEDALL P) as (id & a & F & T). exists id, a. split; [auto|]. split; [auto|]. left. reflexivity.
+      - rewrite select_counts_sum in SC by discriminate. injection SC as <- <-.
+        assert (P' : 0 < fold_left (fun acc x => acc + snd (nc_get (s_netcnt s) x)) (n0 :: r) 0) by exact P.
+        destruct (fold_sum_pos _ _ NN2 0 ltac:(lia) P') as (x & I & Q).
+        destruct (TRIEDX x Q) as (id & a & F & T & E). exists id, a. rewrite E. auto. }
+    assert (NNC : forall nc tc, select_counts s nets = (nc, tc) -> 0 <= nc /\ 0 <= tc).
+    { intros nc tc SC. destruct nets as [|n0 r].
+      - simpl in SC. injection SC as <- <-. rewrite (C_new _ _ _ HC), (C_tried _ _ _ HC). split; apply mcount_nonneg.
+      - rewrite select_counts_sum in SC by discriminate. injection SC as <- <-.
+        assert (G : forall (f : Z -> Z) l a, (forall x, 0 <= f x) -> 0 <= a -> 0 <= fold_left (fun acc x => acc + f x) l a).
+        { intros f l. induction l as [|x r0 IH]; intros a Hf A; simpl; auto. apply IH; auto. specialize (Hf x). lia. }
+        split; apply G; auto; lia. }
+    (* the entry found sits in its table *)
+    assert (PLACE : forall id a, zfind id (s_info s) = Some a -> if a_tried a then sfind (tslot (a_key a)) (s_tried s) = Some id else exists sl, sfind sl (s_new s) = Some id).
+    { intros id a F. destruct (a_tried a) eqn:T; [apply (S_tried2 _ _ _ _ _ HA _ _ F T)|].
+      pose proof (HX id a F T (fun x => x)) as RP. destruct (S_ref _ _ _ _ _ HA _ _ F) as [Q _]. apply refs_pos_find; [apply (S_nd_new _ _ _ _ _ HA) | lia]. }
+    unfold select_plan in SP. destruct (s_random s) eqn:ER; [discriminate|]. clear ER.
+    destruct (select_counts s nets) as [nc tc] eqn:SC. destruct (NNC nc tc eq_refl) as [N1 N2].
+    destruct new_only; cbn [andb orb] in SP.
+    - destruct (nc =? 0) eqn:E0; [discriminate|]. apply Z.eqb_neq in E0. destruct (nc + tc =? 0); [discriminate|]. injection SP as <-.
+      destruct (PICKN nc tc eq_refl ltac:(lia)) as (id & a & F & T & NET). exists id, a. pose proof (PLACE id a F) as PL. rewrite T in *. auto 10.
+    - destruct (nc + tc =? 0) eqn:E0; [discriminate|]. apply Z.eqb_neq in E0.
+      destruct (tc =? 0) eqn:ET.
+      + apply Z.eqb_eq in ET. injection SP as <-. destruct (PICKN nc tc eq_refl ltac:(lia)) as (id & a & F & T & NET).
+        exists id, a. pose proof (PLACE id a F) as PL. rewrite T in *. split; [auto|]. split; [auto|]. split; [discriminate|]. auto.
+      + apply Z.eqb_neq in ET. destruct (nc =? 0) eqn:EN.
+        * injection SP as <-. destruct (PICKT nc tc eq_refl ltac:(lia)) as (id & a & F & T & NET).
+          exists id, a. pose proof (PLACE id a F) as PL. rewrite T in *. split; [auto|]. split; [auto|]. split; [discriminate|]. auto.
+        * apply Z.eqb_neq in EN. injection SP as <-. destruct (PICKN nc tc eq_refl ltac:(lia)) as (id & a & F & T & NET).
+          exists id, a. pose proof (PLACE id a F) as PL. rewrite T in *. split; [auto|]. split; [auto|]. split; [discriminate|]. auto.
+  Qed.
 End Main.
